@@ -142,7 +142,7 @@ def check_text(text, part, max_states=400, max_depth=None):
     s = e2.Search(build, list(range(n)), lambda m: m.state(), max_states=max_states, max_depth=max_depth).run(on_transition)
     part.count('states', s.states)
     part.count('transitions', s.transitions)
-    part.count('modules_closed' if not s.capped else 'modules_capped')
+    part.count('modules_closed' if not s.capped else ('modules_depth_bounded' if s.depth_limited and s.states < max_states else 'modules_capped'))
     part.counters['max_states_one_module'] = max(part.counters['max_states_one_module'], s.states)
     part.counters['max_depth'] = max(part.counters['max_depth'], s.max_depth)
     # lint (whole-file walk on its own scope) must agree with the fresh per-read view
@@ -600,6 +600,7 @@ def run(ctx):
         'programs': int(c['programs']),
         'modules_closed': int(c['modules_closed']),
         'modules_capped': int(c['modules_capped']),
+        'modules_depth_bounded': int(c['modules_depth_bounded']),
         'files_bounded': int(c['files_bounded']),
         'project_states': int(c['project_states']),
         'rule': 'state = sha1 of the generic structural fingerprint of everything reachable from the SourceScope (or Project); a transition '
@@ -609,6 +610,8 @@ def run(ctx):
     ctx.counters['distinct_nontrivial'] = int(c['states'])
     if c['modules_capped'] or c['project_search_capped']:
         ctx.caps_hit.append('%d modules hit the per-module state cap' % (c['modules_capped'] + c['project_search_capped']))
+    if c['modules_depth_bounded']:
+        ctx.caps_hit.append('%d hand-written modules (10-20 query positions each) explored for all histories up to the stated length, not to closure' % c['modules_depth_bounded'])
     ctx.assumptions += [
         'two objects with equal fingerprints answer every future query identically (supp reads no mutable state outside the walked graph; the builtin scope singleton is part of the walk and is reset for every fresh build)',
         'real files: histories are bounded (4 whole-file orders, differential) - not closed',
